@@ -180,7 +180,7 @@ Class(src) ==
         \/ (HasBlock(src, "new_unchecked") /\ src.tparams # <<>>)
         \/ Repeated(src)                                             \* C02 decides repeated blocks, not C08
         \/ src.outer = "doc"
-  IN IF Repeated(src) THEN "dontcare"      \* repeated blocks are C02's subject (Faithful), not C08's
+  IN IF Repeated(src) THEN "dontcare"      \* repeated blocks are C02's subject (either rejected or all enforced), not C08's
      ELSE IF mustReject THEN "reject" ELSE IF dontCare THEN "dontcare" ELSE "accept"
 
 -----------------------------------------------------------------------------
@@ -207,7 +207,9 @@ OpParseBlocks(src) ==
           [] b.bk = "new_unchecked" -> "new_unchecked" \notin src.feats
           [] b.bk = "bogus"    -> TRUE
           [] OTHER             -> FALSE
-  IN IF \E i \in DOMAIN src.blocks : bad(src.blocks[i]) THEN "parse" ELSE ""
+  IN IF \E i \in DOMAIN src.blocks : bad(src.blocks[i]) THEN "parse"
+     ELSE IF Repeated(src) THEN "parse:duplicate_block"      \* fix 262825e: a repeated block is an error, not an assignment
+     ELSE ""
 
 \* validate_numeric_bounds (common/validate.rs:103-156) on the ASSIGNED validators
 OpNumericBounds(val) ==
@@ -217,6 +219,8 @@ OpNumericBounds(val) ==
   IN \/ (lit(g) # {} /\ lit(ge) # {})
      \/ (lit(ls) # {} /\ lit(le) # {})
      \/ \E i \in lit(g) : \E j \in lit(ls) : val[i].b >= val[j].b
+     \/ \E i \in lit(g) : \E j \in lit(le) : val[i].b >= val[j].b      \* fix b519546: one exclusive side
+     \/ \E i \in lit(ge) : \E j \in lit(ls) : val[i].b >= val[j].b     \* excludes the common value
      \/ \E i \in lit(g) \cup lit(ge) : \E j \in lit(ls) \cup lit(le) : val[i].b > val[j].b
 
 OpValidateGuard(src) ==
